@@ -135,7 +135,7 @@ var registry = []propertySpec{
 		Files: map[string][]string{"": {"zz_verif_lib.go", "zz_verif_c07.go"}},
 		Harnesses: []harnessSpec{
 			{Name: "VerifC07_Copy", Quick: tierSpec{Cases: 6}, Thorough: tierSpec{Cases: 6}, Sched: -1,
-				Bounds: "trees of 1..3 nodes (star and chain), every node one of 8 kinds (plain, BIRT, RESI, EVEN, DATE in 5 forms, _UID valid/malformed, NAME, PLAC) with symbolic value bytes / year digits"},
+				Bounds: "trees of 1..3 nodes (star and chain), every node one of 8 kinds (plain, BIRT, RESI, EVEN, DATE in 5 forms, _UID valid/malformed, NAME, PLAC) with symbolic value bytes / year digits; the copy harness also draws DATE 0000..0999"},
 			{Name: "VerifC07_Permute", Quick: tierSpec{Cases: 3}, Thorough: tierSpec{Cases: 3, Split: 3}, Sched: -1,
 				Bounds: "root with 2 or 3 children of the 8 kinds, with 2 children optionally one grandchild (plain or DATE) each; all 2!/3! orders"},
 			{Name: "VerifC07_PermuteDeep", Quick: tierSpec{Cases: 32}, Thorough: tierSpec{Cases: 32}, Sched: -1,
